@@ -70,6 +70,7 @@ Proof.
   intros Hf Hc diff Hd0 Hd1 Hd2 Hnl k. pose proof (ndigits_pos (coeff v)) as Hndp.
   set (nd := ndigits (coeff v)) in *.
   unfold quantize_inner. fold diff.
+  rewrite (is_zero_finite v Hf). destruct (Z.eqb_spec (coeff v) 0) as [Hcz|_]; [lia|].
   destruct (Z.ltb_spec diff 0); [lia|]. destruct (Z.gtb_spec diff 0); [|lia].
   rewrite (nd_ok est HE). cbn [bind]. fold nd.
   destruct (Z.ltb_spec (nd - diff) 0); [lia|].
@@ -148,31 +149,13 @@ Proof.
   - rewrite (quantize_finer est c v e) by lia. rewrite Hf. eexists; eexists; split; [reflexivity|].
     repeat split; try reflexivity. discriminate.
   - destruct (Z.eq_dec (coeff v) 0) as [Hz|Hnz].
-    + (* a zero: only the exponent changes (one position coarser goes through the inner Round and reports Rounded) *)
+    + (* a zero: only the exponent changes, no condition *)
       assert (Hk : 0 < 10 ^ (e - exp v)) by (apply pow10_pos; lia).
       rewrite Hz. rewrite Z.mod_0_l by lia. cbn [Z.eqb negb].
       assert (Hr : rndZ (rounding c) (neg v) 0 (10 ^ (e - exp v)) = 0) by (rewrite rndZ_exact; [apply Z.div_0_l|apply Z.mod_0_l]; lia).
       rewrite Hr.
-      destruct (Z.eq_dec (e - exp v) 1) as [H1|H1].
-      * (* diff = 1, one digit (the zero) dropped by the inner Round *)
-        unfold quantize_inner. destruct (Z.ltb_spec (e - exp v) 0); [lia|]. destruct (Z.gtb_spec (e - exp v) 0); [|lia].
-        rewrite (nd_ok est HE). cbn [bind]. rewrite Hz. change (ndigits 0) with 1.
-        destruct (Z.ltb_spec (1 - (e - exp v)) 0); [lia|]. rewrite H1. change (1 - 1) with 0. change (- (1)) with (-1).
-        unfold round_with, is_finite, set_exp. cbn [form_of coeff exp neg prec emin emax rounding]. rewrite Hf, Hz. cbn [form_eqb negb andb].
-        rewrite (nd_ok est HE). cbn [bind]. change (ndigits 0) with 1.
-        unfold dsign, is_finite. cbn [form_of coeff form_eqb andb Z.eqb negb].
-        change (1 - 0 >? 0) with true. cbv iota. change (1 - 0) with 1.
-        change (1 >? MaxExponent) with false. change (1 <? MinExponent) with false. cbv iota.
-        rewrite table_exp10_ok by lia. cbn [bind]. change (Z.quot 0 (10 ^ 1)) with 0. change (Z.rem 0 (10 ^ 1)) with 0.
-        cbn [Z.eqb negb bind].
-        rewrite (se_normal est HE (mkCtx 0 MaxExponent MinExponent (traps c) (rounding c))
-                   (set_coeff (mkDec Finite (neg v) (-1) 0) 0) unknownNumDigits fRounded [-1; 1] 0);
-          try reflexivity; try (left; reflexivity); cbn [coeff set_coeff emin emax]; change (ndigits 0) with 1;
-          try (unfold in_lim, MinExponent, MaxExponent; lia); try lia.
-        cbn [bind]. unfold set_exp, set_coeff. cbn [form_of neg exp coeff Z.gtb Z.compare].
-        eexists; eexists; split; [reflexivity|]. repeat split; reflexivity.
-      * rewrite (quantize_zero_coarser est HE c v e) by (try assumption; lia).
-        eexists; eexists; split; [reflexivity|]. repeat split; try reflexivity. discriminate.
+      rewrite (quantize_zero est c v e Hf Hz).
+      eexists; eexists; split; [reflexivity|]. repeat split; try reflexivity. discriminate.
     + assert (Hpos : 0 < coeff v) by lia.
       destruct (Z.lt_ge_cases (ndigits (coeff v)) (e - exp v)) as [Hall|Hmid].
       * (* more than one digit below the quantum *)
